@@ -906,7 +906,7 @@ class DumbTerminalMixin:
         }
 
         if fg_color > 15:
-            fg_color -= 15  # blinking not supported
+            fg_color -= 16  # blinking not supported
 
         if bg_color > 0:
             print(bg_ansi_code[bg_color], end='')
